@@ -320,3 +320,34 @@ func VerifC13_Total() {
 //verif:reach error-counted timestamp-set
 //verif:unwind 80
 func VerifC07_ParseTimeAnyBytes() { VerifC13_Total() }
+
+// VerifC13_EveryErrorCounted: two malformed timestamps through the same
+// transform (equal or different): each one is counted, with its record length.
+//
+//verif:stub time.Date verifStubDate
+//verif:stub time.Parse verifStubParse
+//verif:stub time.FixedZone verifStubFixedZone
+//verif:stub (time.Time).Zone verifStubZone
+//verif:stub strconv.ParseFloat verifStubParseFloat
+//verif:reach same different
+func VerifC13_EveryErrorCounted() {
+	verifDate = verifDateRec{}
+	n1 := sym.Choice("len1", 4)
+	n2 := sym.Choice("len2", 4)
+	v1, v2 := sym.String("time1", n1, n1), sym.String("time2", n2, n2)
+	cnt := &verifCounter{}
+	tf, schema := verifNewTransform(cnt)
+	fallback := time.Unix(1600000000, 0)
+	r1 := schema.NewTestRecord2(fallback, base.LogFields{v1, ""})
+	r2 := schema.NewTestRecord2(fallback, base.LogFields{v2, ""})
+	r1.RawLength, r2.RawLength = 10, 7
+	tf.Transform(r1)
+	tf.Transform(r2)
+	sym.Assert(cnt.n == 2 && cnt.bytes == 17, "every malformed timestamp is counted, repeated ones included")
+	sym.Assert(r1.Timestamp == fallback && r2.Timestamp == fallback, "fallback time left in place")
+	if v1 == v2 {
+		sym.Reach("same")
+	} else {
+		sym.Reach("different")
+	}
+}
